@@ -312,7 +312,12 @@ func e1Worker(args []string) {
 		if req.Level == "box" {
 			rep = e1RunBoxSeed(req.Seed, box[req.Seed], p, tier == "thorough", discover)
 		} else {
-			rep = e1RunFileSeed(req.Seed, file[req.Seed], p, tier == "thorough")
+			// "file" or "file#k/n": shard k of n of the ring-2 exploration of a file seed
+			k, n := 0, 1
+			if i := strings.IndexByte(req.Level, '#'); i > 0 {
+				_, _ = fmt.Sscanf(req.Level[i+1:], "%d/%d", &k, &n)
+			}
+			rep = e1RunFileSeed(req.Seed, file[req.Seed], p, tier == "thorough", k, n)
 		}
 		b, _ := json.Marshal(rep)
 		out.Write(b)
@@ -491,6 +496,13 @@ func runE1(c *vf.Ctx, id string) {
 		jobs = append(jobs, job{"box", i, len(s.Bytes)})
 	}
 	for i, s := range file {
+		if c.Tier == "thorough" && len(s.Bytes) <= 2048 {
+			// ring 2 of a small file seed is several hundred thousand evaluations: eight shards over the ring-1 states
+			for k := 0; k < 8; k++ {
+				jobs = append(jobs, job{fmt.Sprintf("file#%d/8", k), i, len(s.Bytes)})
+			}
+			continue
+		}
 		jobs = append(jobs, job{"file", i, len(s.Bytes)})
 	}
 	if nm := os.Getenv("VERIF_E1_SEED"); nm != "" { // debugging aid: only the seeds whose name contains the text
